@@ -14,9 +14,9 @@ KEEP = {"OUT": None, "CONN": ["state", "live", "dwr"], "PEER": ["reason"]}
 T0 = 1700000000
 
 
-def cfg_line(idle, dwa, p_idle="-", p_dwa="-", persistent=0):
+def cfg_line(idle, dwa, p_idle="-", p_dwa="-", persistent=0, wait=99):
     return (f"NODE host=node.local;realm=realm.local;idle={idle};dwa={dwa};cer=50;cea=50;"
-            f"peer:peer1.x,realm.local,{persistent},0,99,1,0,-,-,{p_dwa},{p_idle};app:4,1,0,b,0,0,-")
+            f"peer:peer1.x,realm.local,{persistent},0,{wait},1,0,-,-,{p_dwa},{p_idle};app:4,1,0,b,0,0,-")
 
 
 def oracle(line: str, obs: Obs):
@@ -124,6 +124,27 @@ def scenarios(rng: random.Random, tier: str):
         for _k in range(10):
             evs.append(rng.choice([f"adv {rng.choice([1, idle, idle + 1, dwa + 1])}", "rx 0 " + nodegen.dwa(nxt(), nxt()),
                                    "rx 0 " + nodegen.dwr(nxt(), nxt())]))
+        out.append(line + " | " + " | ".join(evs))
+    # a connection that was lost for another reason, re-established, and then times out on the watchdog:
+    # the reason recorded must be the watchdog timeout (not the stale earlier one)
+    for idle, dwa in ((2, 1), (3, 2)) if tier == "quick" else ((1, 1), (2, 1), (3, 2), (5, 3), (2, 5)):
+        for loss in ("eof 0", "rerr 0 hard", "rx 0 " + nodegen.dpr(nxt(), nxt())):
+            for inbound in (False, True):
+                if inbound:
+                    line = cfg_line(idle, dwa)
+                    evs = ["start", "acc", "rx 0 " + nodegen.cer("peer1.x", "4", nxt(), nxt()), loss, "eof 0", "acc",
+                           "rx 1 " + nodegen.cer("peer1.x", "4", nxt(), nxt())]
+                else:
+                    line = cfg_line(idle, dwa, persistent=1, wait=1)
+                    evs = ["start ok", "rx 0 " + nodegen.cea(2001, "peer1.x", 2001, 268435464), loss, "eof 0", "adv 1", "adv 1",
+                           "rx 1 " + nodegen.cea(2001, "peer1.x", 3001, 268435465)]
+                evs += [f"adv {idle + 1}", f"adv {dwa}", "adv 1", "tick"]
+                out.append(line + " | " + " | ".join(evs))
+    # a request is sent over the connection while its DWA is outstanding; the DWA then arrives in time
+    for idle, dwa in ((2, 3), (3, 5)):
+        line = cfg_line(idle, dwa)
+        evs = ["start", "acc", "rx 0 " + nodegen.cer("peer1.x", "4", nxt(), nxt()), f"adv {idle + 1}",
+               "req 0 " + nodegen.ccr(0, 0, "node.local") + " 1", "rx 0 " + nodegen.dwa(1001, 7), "adv 1", f"adv {dwa + 1}"]
         out.append(line + " | " + " | ".join(evs))
     return out
 
